@@ -83,6 +83,9 @@ StateClauseC02(p, o) ==
    IF o.goal = "X" \/ o.unsat = 0 - 2 THEN "state-query-raises"
    ELSE IF (o.goal = "T") # (o.unsat = 0) THEN "isgoal-vs-unsat"
    ELSE IF o.goal2 # o.goal THEN "isgoal-unstable"
+   \* an enumeration left open across the other queries yields the same set as a fresh one
+   ELSE IF {o.yielded2[k] : k \in DOMAIN o.yielded2} # {o.yielded[k] : k \in DOMAIN o.yielded}
+        THEN "get_applicable_actions-interleaved-differs"
    ELSE IF o.after # st THEN "state-mutated-by-state-query"
    ELSE IF o.unsat < 0 THEN ""
    ELSE LET u3 == UnsatGoals3(R(p), st)
